@@ -288,6 +288,136 @@ class PoolDeadlineFamily(ScenarioFamily):
         return True
 
 
+class QueueResidency:
+    """Observes, after every scheduler step, whether each request the pool knows is waiting
+    in the queue (no connection assigned) - read from pool._requests through guarded
+    getattr; if the internals are missing the check is skipped and counted."""
+
+    def setup(self, world, pool):
+        self.w = world
+        self.pool = pool
+        self.spans = {}      # token -> list of [t_enter, t_leave|None]
+        self.ok = True
+
+    def on_change(self):
+        reqs = getattr(self.pool, "_requests", None)
+        if reqs is None:
+            self.ok = False
+            return
+        now = self.w.now
+        queued = set()
+        for pr in list(reqs):
+            rq = getattr(pr, "request", None)
+            isq = getattr(pr, "is_queued", None)
+            if rq is None or isq is None:
+                self.ok = False
+                return
+            tok = dict((k.lower(), v) for k, v in rq.headers).get(b"x-token")
+            if tok is not None and isq():
+                queued.add(tok)
+        for tok in queued:
+            sp = self.spans.setdefault(tok, [])
+            if not sp or sp[-1][1] is not None:
+                sp.append([now, None])
+        for tok, sp in self.spans.items():
+            if tok not in queued and sp and sp[-1][1] is None:
+                sp[-1][1] = now
+
+    def post(self, res):
+        res.info["queue_spans"] = self.spans if self.ok else None
+
+
+class RequeueFamily(ScenarioFamily):
+    """PoolTimeout when a request waits in the queue more than once: a request that was
+    handed a still-connecting connection which then turns out to speak HTTP/1.1 is put
+    back into the queue.  It may raise PoolTimeout only after having waited in the queue,
+    without a connection, for its whole pool time-out - not earlier - and must be served
+    if a connection becomes free before that."""
+
+    chunk = 50
+
+    def __init__(self, name, ex, nq, nt):
+        super().__init__("C16", name, nq, nt)
+        self.ex = ex
+
+    def generate(self, seed, index, tier):
+        r = gen.mk_rng(seed, "c16requeue")
+        hold = r.choice([0.05, 0.1, 0.3])
+        start_b = r.choice([0.001, 0.002, 0.004])
+        mode = r.choice(["before", "after", "after", "long-first-wait"])
+        plan = lambda tok, n: {"status": 200, "reason": b"OK", "framing": "cl", "body_len": n,
+                               "headers": [[b"Content-Length", b"%d" % n], [b"x-echo-token", tok]],
+                               "header_lines": [b"Content-Length: %d" % n, b"x-echo-token: " + tok]}
+        a = {"op": "request", "token": "a0", "url": "https://a.test/t/a0", "resp": plan(b"a0", 10),
+             "consume": {"hold": hold}}
+        # the connect + TLS of the first connection takes 2 x 0.005 (latency "fixed")
+        pool_t = {"before": hold * r.choice([0.2, 0.6]),
+                  "after": hold * r.choice([1.5, 4.0]) + 0.1,
+                  # longer than the time already spent, shorter than spent + remaining wait
+                  "long-first-wait": hold + 0.004}[mode]
+        b = {"op": "request", "token": "b0", "url": "https://a.test/t/b0", "resp": plan(b"b0", 20),
+             "timeouts": {"pool": pool_t}}
+        scn = {"seed": seed, "exec": self.ex,
+               "pool": {"max_connections": 1, "http2": True},
+               "net": {"latency": "fixed", "seg": "whole",
+                       "endpoints": {"a.test:443": {"kind": "origin", "tls": True,
+                                                    "alpn": ["http/1.1"]}}},
+               "callers": [{"ops": [a]}, {"start": start_b, "ops": [b]}],
+               "epilogue": ["observe", "probe", "close_pool"], "probe_scheme": "https",
+               "c16": {"mode": mode, "pool": pool_t, "hold": hold}}
+        if self.ex == "asyncio":
+            scn["sched"] = r.choice(["fifo", "shuffle"])
+        elif self.ex == "threads":
+            scn["policy"] = {"mode": "ops", "op_p": 0.5}
+        return scn
+
+    def observers(self, scn):
+        from .c05 import EpilogueObserver
+
+        return [EpilogueObserver(), QueueResidency()]
+
+    def post(self, res, scn):
+        w = res.world
+        if res.error:
+            return
+        P = scn["c16"]["pool"]
+        spans = res.info.get("queue_spans")
+        if spans is None:
+            w.probes["c16_requeue_skipped_internals_missing"] += 1
+            return
+        sp = spans.get(b"b0") or []
+        out = res.outcomes.get(("c1", 0), {})
+        call = next(e for e in w.ledger.of("call") if e[4] == b"b0")
+        requeued = bool(sp) and sp[-1][0] > call[1] + 1e-9
+        if requeued:
+            w.probes["c16_requeued"] += 1
+        if out.get("exc") == "PoolTimeout":
+            exc = next(e for e in w.ledger.of("exc") if e[4] == b"b0")
+            last = sp[-1] if sp else None
+            waited = (exc[1] - last[0]) if last else 0.0
+            if waited < P - 1e-9:
+                w.violate("C16", "pooltimeout-early:after-requeue" if requeued
+                          else "pooltimeout-early", {"raised": exc[1], "queued_since": last and last[0],
+                                                     "pool": P})
+                return
+            if waited > P + 1e-9:
+                w.violate("C16", "pooltimeout-late:after-requeue" if requeued
+                          else "pooltimeout-late", {"raised": exc[1], "queued_since": last and last[0],
+                                                    "pool": P})
+                return
+        elif out.get("status") == 200:
+            for t0, t1 in sp:
+                if t1 is not None and t1 - t0 > P + 1e-9:
+                    w.violate("C16", "request-served-after-its-pool-deadline",
+                              {"span": (t0, t1), "pool": P})
+                    return
+        elif "exc" in out:
+            w.violate("C16", "unexpected-failure:%s" % out["exc"], {"msg": out.get("msg")})
+
+    def nontrivial(self, res, scn):
+        return True
+
+
 register("C16", {
     "level": "exploration",
     "rule": "(a) every connection type x company of the C05 bases with distinct per-caller "
@@ -309,4 +439,7 @@ register("C16", {
     PoolDeadlineFamily("pool-deadline-trio", "trio", 800, 15000),
     ArgsFamily("timeout-args-threads-L2", "threads", 400, 8000, seam="L2"),
     StallFamilyL2("C16", "stalled-ops-async-L2", 800, 15000),
-    StallFamilyTrioL2("C16", "stalled-ops-trio-L2", 500, 10000)])
+    StallFamilyTrioL2("C16", "stalled-ops-trio-L2", 500, 10000),
+    RequeueFamily("pool-requeue-async", "asyncio", 600, 12000),
+    RequeueFamily("pool-requeue-threads", "threads", 200, 4000),
+    RequeueFamily("pool-requeue-trio", "trio", 300, 6000)])
